@@ -183,7 +183,7 @@ fn check_archive(k: usize, pops: &[Vec<TInd>], target: &[TInd], each: bool) -> O
 
 pub fn run_part_a(rep: &mut Report) {
     let thorough = rep.tier == Tier::Thorough;
-    rep.alpha("BestIndividual::update over all candidate sequences of length <= 4 (quick) / 5 (thorough) on objectives {0,1,2,+inf} with distinct solutions (ties = different solution, equal objective)");
+    rep.alpha("BestIndividual::update over all candidate sequences of length <= 4 (quick) / 5 (thorough) on objectives {0,1,2,+inf}, and <= 3 on {0.0,-0.0,1e-17}, with distinct solutions (ties = different solution, equal objective)");
     rep.alpha("BestIndividualUpdate on every population of size 0..3 over the grid x previous best in {none, 0, 1, 2, +inf}");
     rep.alpha("ElitistArchiveUpdate over all sequences of <= 2 (quick) / 3 (thorough) populations of size <= 2 x capacity 0..4, with ElitistArchiveIntoPopulation into {empty, first shown population, unrelated population} after the last or after every update");
     let mut p = Part::new("best.update-sequences");
@@ -197,6 +197,29 @@ pub fn run_part_a(rep: &mut Report) {
             p.states += 1;
             if let Some((sg, d)) = check_update_sequence(&seq) {
                 p.violate(sg, d, json!({"kind": "useq", "seq": jv(&seq)}));
+            }
+        }
+    }
+    // zeros of either sign are ties (no replacement); values far below the machine epsilon apart are not
+    let fine = [0.0, -0.0, 1e-17];
+    for l in 2..=3usize {
+        for s in sequences(fine.len(), l) {
+            let seq: Vec<TInd> = s.iter().enumerate().map(|(i, g)| (i as u32, fine[*g])).collect();
+            p.transitions += l as u64;
+            p.traces += 1;
+            p.states += 1;
+            if let Some((sg, d)) = check_update_sequence(&seq) {
+                p.violate(sg, d, json!({"kind": "useq", "seq": jv(&seq)}));
+            }
+        }
+    }
+    for pop in tagged_pops(2, &fine) {
+        for prev in [Some((77u32, 0.0)), Some((77, -0.0)), Some((77, 1e-17))] {
+            p.transitions += 1;
+            p.traces += 1;
+            p.states += 1;
+            if let Some((sg, d)) = check_best_component(&prev, &pop) {
+                p.violate(sg, d, json!({"kind": "bcomp", "prev": prev.map(|x| jv(&[x])), "pop": jv(&pop)}));
             }
         }
     }
